@@ -39,11 +39,11 @@ PROBES = ["earlier_killed", "earlier_io_error", "earlier_clean", "debris_spill_f
           "debris_partial_result", "debris_header_only", "debris_unreadable_parquet", "same_data", "other_data",
           "other_format", "multi_history", "cli", "cli_tsv_leftover", "observed_workers>1", "torn_write",
           "debris_zero_length", "prefix_or_root_differs", "observed_rows_multiple_of_chunk", "rollup_tool", "rollup_same_dir", "earlier_rollup_had_other_inputs", "rollup_outputs_match_input_pattern",
-          "several_collections_with_prefixes"]
+          "several_collections_with_prefixes", "unlink_refused"]
 RULE = (
     "Histories in one destination directory. Family 1 enumerates, for each grid cell (earlier chunk size x observed "
     "chunk size x same/other data x same/other format), EVERY mutation call index of the earlier assign_confidence run "
-    "x {io_error, kill_before, kill_after, kill_torn(0, 0.5, ~1)}; family 2 samples 2-3 earlier runs with seeded "
+    "x {io_error, kill_before, kill_after, kill_torn(0, 0.5, ~1)} (+ PermissionError at every unlink, which mokapot's clean-up swallows); family 2 samples 2-3 earlier runs with seeded "
     "faults, prefixes/file roots, formats and chunking; family 3 kills the CLI at every write of the temporary .tsv and "
     "at the move, then runs it again; family 4 does the same for brew_rollup.main (fault at mutation call 0..15). Oracle: observed run in the dirty directory == same run in a clean directory "
     "(success parity, byte-identical result files), every intermediate it created is gone, the user's PIN is the "
@@ -175,8 +175,10 @@ def scenarios(tier, batch_seed):
             n, rep = count_mutations(earlier)
             cell_no += 1
             if n:
+                unlink_ks = {int(e[0]) for e in (rep.get("log") or []) if e[1] == "unlink"}
                 for k in range(n):
-                    for kind, frac in KINDS:
+                    kinds = list(KINDS) + ([("unlink_error", None)] if k in unlink_ks else [])
+                    for kind, frac in kinds:
                         e = clone(earlier)
                         e["fault"] = {"at": k, "kind": kind}
                         if frac is not None:
@@ -436,6 +438,8 @@ def run_scenario(scn, workdir):
             faults[f["kind"]] = faults.get(f["kind"], 0) + 1
             if f["kind"] == "kill_torn":
                 probes["torn_write"] = 1
+            if f["kind"] == "unlink_error":
+                probes["unlink_refused"] = 1
         if rep["outcome"] == "killed":
             probes["earlier_killed"] = 1
         elif rep["outcome"] == "error":
